@@ -130,6 +130,9 @@ class PathInfo:
         payload can be a graph identifier string or a dict with 'a2z' and 'z2a' lists
         :return:
         """
+        if self.payload is None:
+            # nothing set - the empty string, which from_json() reads back as no value
+            return ''
         json_dict = dict()
         json_dict['type'] = str(self.type)
         json_dict['payload'] = self.payload if self.type == PathRepresentationType.Graph else self.payload.to_dict()
@@ -184,6 +187,9 @@ class ERO(PathInfo):
         payload can be a graph identifier string or a dict with 'a2z' and 'z2a' lists
         :return:
         """
+        if self.payload is None:
+            # nothing set - the empty string, which from_json() reads back as no value
+            return ''
         json_dict = dict()
         json_dict['type'] = str(self.type)
         json_dict['strict'] = str(self.strict)
